@@ -157,6 +157,17 @@ register("C11", "proof",
          TB + "astroid / CPython internal caches are outside the census (seen only through the fresh-process comparison).",
          "Lean 4 proof (invariant + induction over request histories) + global-state census + history/fresh-process correspondence", "DESIGN.md §4 C11")
 
+register("C12", "other",
+         "Partial. Proved in Lean: a constexpr source that contains open / eval / exec as a whole word is rejected by the scan model, for every source and every position of the word "
+         "(forbidden_word_rejected, scan_prefix_irrelevant); the evaluation script is a function of the constexpr sources and the call text only (script_position_independent); an integer result printed by "
+         "format_int reads back as itself (int_result_roundtrip). The scan model is tied to the real check_constexpr_function by correspondence on generated texts. 'What the function returns under ordinary "
+         "Python evaluation' cannot be a Lean theorem (Python is an external parameter): it is decided on the real transpiler by compiling each generated program twice — with the @constexpr call, and with the "
+         "call replaced by the literal the same function returns in the harness interpreter and the definition removed — and requiring identical code (value substituted, nothing emitted for the decorated "
+         "function), over 12 body templates × arguments × positional/keyword calls × 5 call positions × options; plus a same-call-text / edited-body history and the rejection of aliasing forms "
+         "(g = eval; map(eval, …)). Known finding F-C12-a (library-module constexpr called unqualified).",
+         TB + "CPython evaluation of the constexpr body is an external parameter; constexpr children that exceed the transpiler's own 1 s timeout on a loaded machine are skipped and counted.",
+         "Lean 4 proof for the rejection scan + literal-substitution comparison on the real transpiler", "DESIGN.md §4 C12")
+
 ALL = [f"C{i:02d}" for i in range(1, 19)]
 
 
